@@ -286,13 +286,13 @@ def build_exact(recipe, data=None, variant=0):
         covar = K.InducingPointKernel(K.ScaleKernel(base), inducing_points=z, likelihood=lik)
     elif fam == "rff":
         torch.manual_seed(recipe.get("init_seed", 0))  # RFF weights are drawn at construction
-        covar = K.ScaleKernel(K.RFFKernel(num_samples=recipe["rff_samples"], num_dims=d))
+        covar = K.ScaleKernel(K.RFFKernel(num_samples=recipe["rff_samples"], num_dims=None if recipe.get("rff_lazy") else d))
     elif fam == "grid":
         grid, _ = grid_inputs(recipe["grid_n"], d)
         covar = K.ScaleKernel(K.GridKernel(base, grid=grid))
     elif fam == "multitask":
         mean = M.MultitaskMean(mean, num_tasks=tasks)
-        covar = K.MultitaskKernel(base, num_tasks=tasks, rank=recipe.get("rank", 1))
+        covar = K.MultitaskKernel(base, num_tasks=tasks, rank=recipe.get("rank", 1))  # (batch-shaped task covariances fail to broadcast; the data kernel carries the batch)
         mt = tasks
     elif fam == "hadamard":
         covar = K.ScaleKernel(base)
@@ -383,6 +383,7 @@ def gen_exact_recipe(rng, families=None, small=True):
         r["kernel"] = rng.choice(["rbf", "matern25", "rq", "sum"])
     elif fam == "rff":
         r["rff_samples"] = rng.choice([4, 10])
+        r["rff_lazy"] = rng.random() < 0.4  # input dimension unknown at construction: weights drawn at the first evaluation
         r["kernel"] = "rbf"  # unused
         r["ard"] = False
     elif fam == "grid":
